@@ -469,10 +469,15 @@ Definition expired (s : state) (e : ste) : bool :=
 Definition refund_expired_chain (s : state) (chain : bytes) : res state :=
   fold_left (fun r e =>
                let* st := r in
+               (* fix: a refund that panics is dropped like one that returns an error, nothing of it is committed.
+                  MintCoins panics when the refunded total no longer fits the bank's 256-bit supply. *)
+               let total := conv_from_ext (st_tokens st) chain (s_ext e) (s_token e + s_fee e + s_comm e) in
+               if negb (fits256 (supply st (refund_denom st e) + total)) then Ok st
+               else
                match cancel_send st chain (s_id e) (s_sender e) with
                | Ok st' => Ok st'
                | Err _ => Ok st
-               | Panic c => Panic c
+               | Panic _ => Ok st
                end)
             (filter (expired s) (pool_of_chain chain (st_pool s))) (Ok s).
 
